@@ -352,6 +352,17 @@ def run_phase(ctx, ph):
         # differ between executions; but every KIND of deviation must show up again, otherwise it was a fluke of the harness
         k1 = {dev_key(b) for b in bads}
         k2 = {dev_key(b) for b in bads2}
+        if k1 - k2:
+            # what a call answers may depend on the calls made before it in the same process (state carried over inside the
+            # code under test): such a deviation cannot show up when its case runs alone.  Second chance: the WHOLE phase is
+            # executed again, in the same order; a kind that shows up again there is reproducible real-code behaviour.
+            tr3 = os.path.join(work, f"trace_{name}_rerun.ndjson")
+            drive(ctx.binp, work, d["driver"], cases_path, tr3, seed, tier, extra=extra, timeout=d.get("timeout", 3000))
+            bads3 = validate(ctx, name + "_rerun", v, tr3, count=False)
+            k3 = {dev_key(b) for b in bads3} & (k1 - k2)
+            if k3:
+                log(f"{name}: deviation kind(s) {sorted(k3)} reproduce only when the whole phase is executed again (they depend on earlier calls in the same process)")
+                k2 |= k3
         if not (k1 & k2):
             raise Infra(f"{name}: deviation kind(s) {sorted(k1 - k2)} did not reproduce on re-execution: not reported (flaky)")
         if k1 - k2:
